@@ -5754,7 +5754,9 @@ class CodegenCtx:
                 char_type = self._get_string_char_type()
                 if action.into_storage.holds_a(OutputStorageType.RAW):
                     char_type = "uint8_t"
-                body.add(f"{self._generate_buflike_index_expr(action.into_storage, f'state->{action.into_storage.name}_counter++')} = ({char_type})({target_expression});")
+                # (increment separately: the appended expression may itself read the counter, e.g. s += [s.len])
+                body.add(f"{self._generate_buflike_index_expr(action.into_storage, f'state->{action.into_storage.name}_counter')} = ({char_type})({target_expression});")
+                body.add(f"state->{action.into_storage.name}_counter++;")
                 if action.into_storage.holds_a(OutputStorageType.STR) and action.into_storage.str_null:
                     body.add(f"{self._generate_buflike_index_expr(action.into_storage, f'state->{action.into_storage.name}_counter')} = 0;")
             result.add("}")
